@@ -74,8 +74,8 @@ CONFIGS = {
         ('N4-DS', dict(N=4, Kinds={"ea", "eb", "c", "t"}, RootCfg="R1", Axes=set(AXES),
                        Tests={"node()", "*", "comment()"}, Preds={"1"},
                        ParenPreds=set(), Preds2=set(), DocSibs=True, NsTests=set())),
-        ('N5', dict(N=5, Kinds={"ea", "eb", "t"}, RootCfg="R1", Axes=set(AXES),
-                    Tests={"node()", "*", "a"}, Preds={"last()"}, ParenPreds=set(), Preds2=set(), DocSibs=False, NsTests=set())),
+        ('N5', dict(N=5, Kinds={"ea", "eb", "t"}, RootCfg="R1", Axes=set(AXES) - {"attribute"},
+                    Tests={"node()", "*"}, Preds=set(), ParenPreds=set(), Preds2=set(), DocSibs=False, NsTests=set())),
     ],
 }
 
